@@ -454,6 +454,8 @@ def execute(sc, sched: Choices, cls, cfg):
     # history (container/route-dependent null convention, see ops.sanitize)
     if any(s_["op"]["op"] in ops.SUM_LIKE for s_ in steps):
         ds = dict(ds, cols=[dict(c, idx=[0 if i == 1 else i for i in c["idx"]]) if c["dtype"] == "int64" else c for c in ds["cols"]])
+    if any(s_["op"]["op"] in ops.DIVIDING for s_ in steps):
+        ds = dict(ds, cols=[dict(c, arb=False) for c in ds["cols"]])
     dso = ds
     owned_vals = []
     for c, col in enumerate(ds["cols"]):
@@ -500,6 +502,7 @@ def execute(sc, sched: Choices, cls, cfg):
         return ks[0] if len(ks) == 1 else ks
 
     containers = {}  # the client's own list / dict of value columns, reused across calls
+    facades = []  # the client's pandas-style facade objects around `gb`, kept and reused
 
     def values_obj(cols):
         if len(cols) == 1:
@@ -587,6 +590,8 @@ def execute(sc, sched: Choices, cls, cfg):
         opname = op["op"] + ("_transform" if op.get("transform") else "")
         mask_desc = ops.op_mask(op)
         mask = gen.build_mask(ds, mask_desc)
+        if op.get("via") == "api":
+            probes.add("via_facade")
         owned_mask = None
         if isinstance(mask, np.ndarray):
             owned_mask = own_array(mask, "numpy_readonly" if mask_readonly else "numpy")
@@ -618,7 +623,7 @@ def execute(sc, sched: Choices, cls, cfg):
                     values = np.concatenate([a, a[:1]])
                 elif fk == "bad_mask_len":
                     m = np.ones(n + 1, dtype=bool)
-            return ops.call_op(target, op, values, m, dso, times=None if owned_times is None else owned_times.obj)
+            return ops.call_op(target, op, values, m, dso, times=None if owned_times is None else owned_times.obj, wrappers=facades if target is gb else None, raw_keys=keys_obj())
 
         this_fault = fault if (fault is not None and fault_step == si) else None
         ctxr = new_ctx(this_fault)
